@@ -82,7 +82,10 @@ def cli_run(binp, build, content, sub='check'):
     d = os.path.join(build, 'cli-work')
     os.makedirs(d, exist_ok=True)
     f = os.path.join(d, 'w.zy')
-    open(f, 'w', encoding='utf-8').write(content)
+    if isinstance(content, bytes):
+        open(f, 'wb').write(content)
+    else:
+        open(f, 'w', encoding='utf-8').write(content)
     env = dict(os.environ, RUST_BACKTRACE='0', NO_COLOR='1')
     try:
         p = subprocess.run([binp, sub, f] if sub != 'fmt-check' else [binp, 'fmt', '--check', f], env=env, stdout=subprocess.PIPE, stderr=subprocess.PIPE, text=True, timeout=60)
@@ -105,11 +108,15 @@ def cli_check_one(binp, build, mode, content):
         # `zydeco fmt` in place: it must fail, or at least not write less program than it read
         d = os.path.join(build, 'cli-work')
         f = os.path.join(d, 'w.zy')
-        open(f, 'w', encoding='utf-8').write(content)
+        if isinstance(content, bytes):
+            open(f, 'wb').write(content)
+        else:
+            open(f, 'w', encoding='utf-8').write(content)
         try:
             p = subprocess.run([binp, 'fmt', f], env=dict(os.environ, RUST_BACKTRACE='0', NO_COLOR='1'), stdout=subprocess.PIPE, stderr=subprocess.PIPE, text=True, timeout=60)
-            after = open(f, encoding='utf-8').read()
-            if p.returncode == 0 and after != content:
+            after = open(f, 'rb').read()
+            before = content if isinstance(content, bytes) else content.encode('utf-8')
+            if p.returncode == 0 and after != before:
                 return True, '`zydeco fmt` REWROTE a file that `check` rejects (exit 0): ' + repr(after[:80])
         except subprocess.TimeoutExpired:
             return True, '`zydeco fmt` did not terminate within 60 s'
@@ -132,6 +139,22 @@ def cli_search(mode, repo, build, log):
                 fails, detail = cli_check_one(binp, build, mode, b + j)
                 if fails:
                     return dict(found=True, input=b + j, clause='PROPERTY', detail=detail, tried=n, replay_cmd=['@cli', mode, b + j], searched='zydeco check/fmt over base x junk candidates')
+        # whole files in which the junk sits where a pre-processing step of a caller might cut: before a marker character,
+        # beyond a size cap, after bytes that are not UTF-8
+        extra = []
+        for marker in ['\ufeff', '\x00', '\x0c', '\r', '\x1a', '\u2028']:
+            extra.append('((( junk ]\n' + marker + 'ret 1\n')
+            extra.append('ret 1 ' + marker + ' ) junk (\n')
+        for size in (70 * 1024, 1100 * 1024, 4300 * 1024):
+            extra.append('ret 1\n' + ('-- padding line to get past a read cap ........................................\n' * (size // 80)) + '-/ ) junk (((\n')
+        extra.append(b'ret 1 -- caf\xe9\n) junk (\n')
+        extra.append(b'ret 1\n-- \xff\xfe\n) junk (\n')
+        for c in extra:
+            n += 1
+            fails, detail = cli_check_one(binp, build, mode, c)
+            if fails:
+                shown = c if isinstance(c, str) and len(c) < 200 else (repr(c[:60]) + f'... ({len(c)} bytes)')
+                return dict(found=True, input=shown, clause='PROPERTY', detail=detail, tried=n, replay_cmd=None, searched='zydeco check/fmt over whole-file candidates (markers, size caps, non-UTF-8)')
     return dict(found=False, tried=n, detail='no failing input among the CLI candidates', searched='zydeco check/fmt over base x junk candidates')
 
 
@@ -334,6 +357,15 @@ def front_end_candidates():
         c += [f'codata | .d {d} : T end', f'codata | {d} : T end', f'data | +C {d} end', f'comatch | .d {d} => ret 1 end', f'comatch | {d} => ret 1 end', f'match 1 | {d} => ret 1 end',
               f'fn {d} => ret 1', f'pi {d} . T', f'forall {d} . T', f'exists {d} . T', f'sigma {d} . T', f'let {d} = 1 in ret 1', f'do {d} <- ret 1; ret 1', f'fix {d} => ret 1',
               f'begin param {d} that ret 1 end', f'begin let {d} = 1 that ret 1 end', f'ret ({d})', f'! ({d})', f'({d} : T)']
+    # unattached documentation text of minimal length (warnings are rendered with labels computed from the block's range)
+    c += ['--|', '--|x', '--| ', 'ret 1 --|', 'ret 1\n--| t', '--|\nret 1', 'ret 1 --| a\n--|\n', '--|\n--|\n']
+    # imports whose path climbs above the file system root, is empty, is a directory, or names the file itself
+    c += ['@[import("' + '../' * 40 + 'x.zy")] _', '@(import("' + '../' * 40 + 'x.zy"))', '@[import("")] _', '@[import(".")] _', '@[import("/")] _', '@[import("w.zy")] _', '@[import("./w.zy")] _',
+          '@[import("a","b")] _', '@(import())', '@(import(1))', '@(import("nonexistent.zy"))']
+    # degenerate parameters in every quantifier / binder form
+    for d in ['(())', '(() : K)', '(a = ())', '()', '(() , ())', '((()))', '(_ : _)', '(a : )']:
+        c += [f'exists {d} . T', f'sigma {d} . T', f'forall {d} . T', f'pi {d} . T', f'fn {d} => ret 1', f'let {d} = 1 in ret 1', f'do {d} <- ret 1; ret 1', f'begin param {d} that ret 1 end',
+              f'match 1 | {d} => ret 1 end', f'data | +C {d} end', f'codata | .d {d} : T end', f'fix {d} => ret 1']
     seen = set()
     out = []
     for x in c:
